@@ -85,21 +85,21 @@ CLAIMS = {
         "translator": True,
     },
     "C10": {
-        "text": "Kernel-checked refinement of the iterator model (after the fix: commits) to 'the list of moves its entries denote under the mask': len = size_hint = its length, is_empty iff it is empty, next yields its head and leaves its tail, draining yields it exactly once in order, remove and remove_move filter it, set_mask re-bases it up to order — for every state with the promotion cursor at a group boundary. The two recorded findings (remove_move of one promotion choice; editing while a promotion group is half yielded) are exactly the excluded states and are listed in known_findings.jsonl.",
+        "text": "Kernel-checked refinement of the iterator model (after the fix: commits) to 'the list of moves its entries denote under the mask': len = size_hint = its length, is_empty iff it is empty, next yields its head and leaves its tail, draining yields it exactly once in order, remove and remove_move filter it, set_mask re-bases it up to order — for every state with the promotion cursor at a group boundary. Masks: legals_masked(m) = legals() filtered by destination in the same order (every board), hence exactly the legal moves with destination in m, each once (every well-formed board, via C01); set_mask on an existing iterator denotes exactly the not-yet-yielded moves with destination in the mask; a round under a mask yields those and leaves the rest; successive masks that together cover the board yield every legal move exactly once. Per run: lock-step operation sequences (next, len, is_empty, size_hint, set_mask, remove, remove_move, clone) on the real MoveGen, replayed by the model and judged by a specification monitor. Two defects that need a different MoveGen representation are recorded as known findings (mid-promotion-group edits; remove_move of one promotion choice).",
         "note": "Trusted: Lean kernel (axioms propext, Classical.choice, Quot.sound); hand-written model of MoveGen tied to the code by exact replay of operation sequences; the specification monitor checks every trace against the remaining-move set.",
-        "technique": "Lean 4 refinement proof (simulation to an abstract move list, induction over fuel, permutation lemma for set_mask) + lock-step operation-sequence correspondence",
+        "technique": "Lean 4 refinement proof (simulation to an abstract move list, induction over fuel, permutation lemmas for set_mask and successive masks) + lock-step operation-sequence correspondence",
         "translator": True,
     },
     "C11": {
-        "text": "Lean model of search_with/alphabeta/eval for both policies with the timeout as a poll index; total by structural recursion on fuel (termination for every expiry index is part of the definition being accepted). Kernel-checked: polls are monotone; with the limit already expired the search returns no move for every board and history. 'Returned move is legal / none iff no legal moves' for general k is not yet proved; it is decided per run by exact model equality (move, score, depth, evaluations, polls) and the specification oracle for k = 0..6 and geometrically up to thousands of polls. Partial: wall clock replaced by poll index.",
-        "note": "Trusted: Lean kernel; hand-written engine model (positional = false, the only shipped configuration) tied to the code exactly; DurationTimeout assumed monotone.",
-        "technique": "Lean 4 executable model of the search with fuel + exact correspondence on (position, expiry index) + specification oracle (partial proof)",
+        "text": "Lean model of search_with/alphabeta/eval for both policies with the timeout as a poll index (the k-th poll is the first to report expiry); total by recursion on fuel. Kernel-checked for every board, every repetition history, every expiry index k and every stale max_depth: a returned move is one the generator yields (search_legal) and therefore, on well-formed boards, legal by the rules of chess (search_legal_spec, via C01); no legal move => no move returned (search_none); the first deepening pass finished and legal moves exist => a move is returned (search_some); first pass unfinished => no move (search_unfinished); k = 0 => no move (search_immediate). Per run: exact correspondence of (move, score, depth, evaluations, polls) between the real Engine::search with a counting Timeout and the model for k = 0..6 and geometrically up to thousands of polls, the model's firstPassFinished against what the harness observes, and a specification oracle on the returned move. Wall-clock expiry is abstracted to the poll index; panics are traps under the checked build.",
+        "note": "Trusted: Lean kernel (axioms propext, Classical.choice, Quot.sound); hand-written engine model (positional = false, the only shipped configuration) tied to the code exactly; DurationTimeout assumed monotone; partial only in that wall-clock time is abstracted to the poll index.",
+        "technique": "Lean 4 invariant proofs over the deepening loop, root loops and alphabeta (induction on fuel) + exact correspondence on (position, expiry index) + specification oracle",
         "translator": True,
     },
     "C12": {
-        "text": "Kernel-checked score facts the argument rests on: a mate-in-one for the mover is never improved upon by any score a root move can return, and beats the initial sentinel, so with the strict is_better the first mating move found is kept. The statement for the whole search is decided per run by the oracle on positions with zero, one and several mating moves (specification: checkmate after the returned move; mate-in-one score only with a mating move), with exact model equality.",
-        "note": "Trusted: Lean kernel; engine model tied exactly; partial proof.",
-        "technique": "Lean 4 order lemmas on regenerated score comparison + specification oracle on generated mating positions (partial proof)",
+        "text": "Kernel-checked for every board, repetition history, expiry index and stale max_depth: mate1_truthful — a mate-in-one score for the side to move is only reported together with a move after which the opponent has no legal move and is in check (checkmate by the rules: isMateMove_spec, via C01-C03); mate1_found — on well-formed boards, if the first deepening pass finishes and some legal move mates, the search returns a mating move with the mover's mate-in-one score. mate1_found carries one side condition: the witness mating move is not a capture leaving insufficient material (K v K, K+minor v K), which alphabeta scores as a draw before looking for mate; that no such move can mate is a chess fact not proved here. Per run: oracle on mating nets with zero, one, several mating moves, on retrograde-built mates (captures of every kind of man down to minimal material, quiet mates with the half-move clock up to 99) and positions from play; exact model equality as in C11.",
+        "note": "Trusted: Lean kernel (axioms propext, Classical.choice, Quot.sound); engine model tied exactly; the side condition of mate1_found (see text).",
+        "technique": "Lean 4 invariant proofs over the search (score shape by depth, strict improvement keeps the first mating move) + specification oracle on generated and retrograde-built mating positions",
         "translator": True,
     },
     "C13": {
@@ -109,9 +109,9 @@ CLAIMS = {
         "translator": True,
     },
     "C15": {
-        "text": "Kernel-checked on the plugin model: an illegal move leaves the state unchanged and is reported invalid; a legal move installs the successor and reports valid with the table's answer; set_board clears the table; board equality is an equivalence; the flag is raised exactly when a position's saturating counter becomes 3. Refinement to the specification (legal gate = rules, successor = rules, third occurrence) needs C01/C02 in full and is decided per run through the real cdylib loaded with abi_stable. Partial: dynamic loading is runtime behaviour.",
-        "note": "Trusted: Lean kernel; plugin/ThreeFold models; the reading of 'third occurrence' recorded in DESIGN.md §5; encodings across the ABI are C16.",
-        "technique": "Lean 4 state-machine theorems + lock-step operation-sequence correspondence through the real plugin (partial proof)",
+        "text": "Kernel-checked refinement (bot_refines): for every sequence of set_board / make_move calls (boards handed to set_board well formed) the plugin model answers exactly like the specification — a move is accepted iff it is legal by the rules of chess in the current position (C01), the reported board is the reference successor (C02) and stays well formed, and the threefold flag is raised exactly when the produced position (placement, side to move, rights, e.p. file) occurs for the third time among the positions produced since the board was last set; an illegal move leaves the state unchanged. The proposed move is legal: C11.search_legal_spec. Per run: set-board / make-move (legal and illegal) / evaluate sequences with long reversible manoeuvres through the real chess-bot cdylib loaded via abi_stable, replayed by the model and judged by the specification monitor.",
+        "note": "Trusted: Lean kernel (axioms propext, Classical.choice, Quot.sound); plugin/ThreeFold models tied to the real plugin by lock-step replay; the reading of 'third occurrence' recorded in DESIGN.md §5; encodings across the ABI are C16; dynamic loading is runtime behaviour.",
+        "technique": "Lean 4 refinement proof (simulation relation with a counting invariant on the repetition table, using C01/C02) + lock-step operation-sequence correspondence through the real plugin",
         "translator": True,
     },
     "C17": {
